@@ -12,17 +12,55 @@ Theorem C12_registry_invariant : forall acc sites ops i s t c,
 Proof. exact registry_invariant'. Qed.
 Print Assumptions C12_registry_invariant.
 
-(* after ANY history [pre] (decodes through any sites interleaved with definitions), decoding an
-   input tagged t through a field site answers with exactly the eligible class defined so far that
-   carries t, SuitableVariantNotFound iff there is none, never anything else *)
+(* after ANY history [pre] (decodes through any sites interleaved with definitions), decoding an input tagged t
+   through a field site SELECTS exactly the eligible class defined so far that carries t (which then accepts the input
+   -> instance, or rejects it -> its own error), SuitableVariantNotFound iff there is none, never anything else *)
 Theorem C12_registry : forall acc sites pre i s inp t present,
   nth_error sites i = Some s -> s_field s = true -> site_ok s (length (defs pre)) = true ->
-  assoc (s_fid s) inp = Some t ->          (* the site's key is present in the input and its value is t *)
-  tag_unique (defs pre) s t -> plain_carriers sites (defs pre) s t ->
+  assoc (s_fid s) inp = Some (Hashable t) ->          (* the site's key is present in the input and its value is t *)
+  tag_unique (defs pre) s t -> plain_carriers sites (defs pre) s t -> no_keyerror acc (defs pre) s t present ->
   exists o, snd (step acc sites (final acc sites pre) (Decode i inp present)) = Some o
-            /\ field_spec (defs pre) s t o.
+            /\ field_spec acc (defs pre) s t present o.
 Proof. exact decode_field_correct. Qed.
 Print Assumptions C12_registry.
+
+(* the full statement has no [no_keyerror] hypothesis; the faithful model violates it: *)
+Definition C12_registry_full : Prop := forall acc sites pre i s inp t present,
+  nth_error sites i = Some s -> s_field s = true -> site_ok s (length (defs pre)) = true ->
+  assoc (s_fid s) inp = Some (Hashable t) -> tag_unique (defs pre) s t -> plain_carriers sites (defs pre) s t ->
+  exists o, snd (step acc sites (final acc sites pre) (Decode i inp present)) = Some o
+            /\ field_spec acc (defs pre) s t present o.
+
+(* Known finding C12/variant-keyerror-misreported: the class carrying the tag IS found, its own from_dict raises a
+   KeyError (a __pre_deserialize__ hook), the dispatcher takes that for a registry miss, refills, retries and reports
+   SuitableVariantNotFound - "no class carries this tag" - although one does. *)
+Definition s_ke : site := Site [0] true false true false false false 0 0.
+Definition h_ke : list op := [Define [] [] [] [] false; Define [0] [(0, 1)] [] [] true].
+Theorem C12_variant_keyerror_refuted : ~ C12_registry_full.
+Proof.
+  intros F.
+  assert (U: tag_unique (defs h_ke) s_ke 1).
+  { apply (proj1 (tag_uniqueb_iff (defs h_ke) s_ke 1 (wf_defs h_ke) eq_refl)). reflexivity. }
+  destruct (F acc_req [s_ke] h_ke 0 s_ke [(0, Hashable 1)] 1 [kerr_marker] eq_refl eq_refl eq_refl eq_refl U (fun c _ => eq_refl))
+    as [o [E [_ [_ [N _]]]]].
+  vm_compute in E. injection E as <-.
+  apply (proj1 N eq_refl 1). split.
+  - left. split; [reflexivity|]. exists 0. split; [left; reflexivity|].
+    apply desc_child. exists (Cls [0] [(0, 1)] [] [] true). split; [reflexivity | left; reflexivity].
+  - exists (Cls [0] [(0, 1)] [] [] true). split; [reflexivity | left; reflexivity].
+Qed.
+Print Assumptions C12_variant_keyerror_refuted.
+
+(* ONE from_dict call of a holder with several discriminated fields = the list of its (site, sub-input) pairs: every
+   field is decided by its OWN site - own registry, own key, own tagger function (seq_spec: each field satisfies the
+   field_spec of its own site; the first failing field decides the error).  The sites do not interfere: this is what
+   /repo fix 79143aa (one tagger name per dispatcher) repaired. *)
+Theorem C12_multi_field : forall acc sites pre l,
+  (forall e, In e l -> entry_ok acc sites (defs pre) e) ->
+  exists o, snd (step acc sites (final acc sites pre) (DecodeSeq l)) = Some o
+            /\ seq_spec acc (defs pre) sites l [] o.
+Proof. exact multi_field_correct. Qed.
+Print Assumptions C12_multi_field.
 
 (* the site's key is absent  =>  MissingDiscriminator, state untouched (the converse for the selected class is the
    `o <> OMissing` of field_spec; the hypothesis-free converse is the next theorem) *)
@@ -33,10 +71,27 @@ Theorem C12_missing_tag : forall acc sites pre i s inp present,
 Proof. exact missing_tag. Qed.
 Print Assumptions C12_missing_tag.
 
+(* a value under the key that is not hashable (a list, a dict) cannot be anybody's tag: SuitableVariantNotFound, without
+   lookup or refill (/repo db5b89f) *)
+Theorem C12_unhashable_tag : forall acc sites pre i s inp present,
+  nth_error sites i = Some s -> s_field s = true -> site_ok s (length (defs pre)) = true ->
+  assoc (s_fid s) inp = Some Unhashable ->
+  step acc sites (final acc sites pre) (Decode i inp present) = (final acc sites pre, Some ONotFound).
+Proof. exact unhashable_tag. Qed.
+Print Assumptions C12_unhashable_tag.
+
+(* an input that is not a mapping: a field dispatcher answers ValueError "should be a dict instance" (/repo 60866ea),
+   in no-field mode no class accepts it; state untouched *)
+Theorem C12_non_mapping : forall acc sites pre i s,
+  nth_error sites i = Some s -> site_ok s (length (defs pre)) = true ->
+  step acc sites (final acc sites pre) (DecodeBad i)
+  = (final acc sites pre, Some (if s_field s then ONotDict else ONotFound)).
+Proof. exact non_mapping. Qed.
+Print Assumptions C12_non_mapping.
+
 (* ... and only then: if the keys of all field dispatchers are present in the input - whatever their values (falsy ones,
-   None as a value) - nothing is reported missing: every state, every site, any depth of nested dispatchers, no other
-   hypothesis.  (Dispatchers of one hierarchy may use different key names; an absent INNER key is reported as
-   MissingDiscriminator, never as an unknown outer tag: C12_nested_missing_key below.) *)
+   None as a value) - nothing is reported missing: every state, every site, any depth and mix of nested dispatchers, no
+   other hypothesis. *)
 Theorem C12_present_keys_not_missing : forall acc sites x i inp present,
   keys_present sites inp -> snd (step acc sites x (Decode i inp present)) <> Some OMissing.
 Proof. exact present_keys_not_missing. Qed.
@@ -44,13 +99,14 @@ Print Assumptions C12_present_keys_not_missing.
 
 (* two histories (even over different site lists, different other keys in the input) that defined the same classes
    give the same answer *)
-Theorem C12_history_independent : forall acc sites1 sites2 pre1 pre2 i1 i2 s inp1 inp2 t present1 present2,
+Theorem C12_history_independent : forall acc sites1 sites2 pre1 pre2 i1 i2 s inp1 inp2 t present,
   nth_error sites1 i1 = Some s -> nth_error sites2 i2 = Some s -> s_field s = true ->
-  assoc (s_fid s) inp1 = Some t -> assoc (s_fid s) inp2 = Some t ->
+  assoc (s_fid s) inp1 = Some (Hashable t) -> assoc (s_fid s) inp2 = Some (Hashable t) ->
   defs pre1 = defs pre2 -> site_ok s (length (defs pre1)) = true -> tag_unique (defs pre1) s t ->
   plain_carriers sites1 (defs pre1) s t -> plain_carriers sites2 (defs pre1) s t ->
-  snd (step acc sites1 (final acc sites1 pre1) (Decode i1 inp1 present1))
-  = snd (step acc sites2 (final acc sites2 pre2) (Decode i2 inp2 present2)).
+  no_keyerror acc (defs pre1) s t present ->
+  snd (step acc sites1 (final acc sites1 pre1) (Decode i1 inp1 present))
+  = snd (step acc sites2 (final acc sites2 pre2) (Decode i2 inp2 present)).
 Proof. exact history_independent. Qed.
 Print Assumptions C12_history_independent.
 
@@ -86,16 +142,16 @@ Print Assumptions C12_tag_unique_decidable.
 (* Remark (not a violation: the property is silent when two eligible classes share a tag): without
    uniqueness the answer depends on the history - a registry filled before the second class was
    defined keeps the first class, a fresh one answers with the last class of the walk. *)
-Definition s_demo : site := Site [0] true false true false false false 0.
+Definition s_demo : site := Site [0] true false true false false false 0 0.
 Definition h_stale : list op :=
-  [Define [] [] [] []; Define [0] [(0, 1)] [] []; Decode 0 [(0, 1)] []; Define [0] [(0, 1)] [] []].
+  [Define [] [] [] [] false; Define [0] [(0, 1)] [] [] false; Decode 0 [(0, Hashable 1)] []; Define [0] [(0, 1)] [] [] false].
 Definition h_fresh : list op :=
-  [Define [] [] [] []; Define [0] [(0, 1)] [] []; Define [0] [(0, 1)] [] []].
+  [Define [] [] [] [] false; Define [0] [(0, 1)] [] [] false; Define [0] [(0, 1)] [] [] false].
 
 Theorem C12_nonunique_order_dependent :
   defs h_stale = defs h_fresh
-  /\ snd (step acc_req [s_demo] (final acc_req [s_demo] h_stale) (Decode 0 [(0, 1)] [])) = Some (OInst 1)
-  /\ snd (step acc_req [s_demo] (final acc_req [s_demo] h_fresh) (Decode 0 [(0, 1)] [])) = Some (OInst 2).
+  /\ snd (step acc_req [s_demo] (final acc_req [s_demo] h_stale) (Decode 0 [(0, Hashable 1)] [])) = Some (OInst 1)
+  /\ snd (step acc_req [s_demo] (final acc_req [s_demo] h_fresh) (Decode 0 [(0, Hashable 1)] [])) = Some (OInst 2).
 Proof. vm_compute. repeat split. Qed.
 Print Assumptions C12_nonunique_order_dependent.
 
@@ -103,17 +159,17 @@ Print Assumptions C12_nonunique_order_dependent.
    its own class-level discriminator is a dispatcher over its strict subclasses, so a tag carried by such a
    class is answered by SuitableVariantNotFound - this is what the hypothesis plain_carriers excludes. *)
 Definition sites_nested : list site :=
-  [Site [0] true false true false true false 0; Site [1] true false true false true false 0].
-Definition h_nested : list op := [Define [] [] [] []; Define [0] [(0, 1)] [] []; Define [1] [(0, 2)] [] []].
+  [Site [0] true false true false true false 0 0; Site [1] true false true false true false 0 0].
+Definition h_nested : list op := [Define [] [] [] [] false; Define [0] [(0, 1)] [] [] false; Define [1] [(0, 2)] [] [] false].
 Theorem C12_class_level_self_excluded :
-  carries (defs h_nested) (Site [0] true false true false true false 0) 1 1
-  /\ snd (step acc_req sites_nested (final acc_req sites_nested h_nested) (Decode 0 [(0, 1)] [])) = Some ONotFound
-  /\ snd (step acc_req sites_nested (final acc_req sites_nested h_nested) (Decode 0 [(0, 2)] [])) = Some (OInst 2).
+  carries (defs h_nested) (Site [0] true false true false true false 0 0) 1 1
+  /\ snd (step acc_req sites_nested (final acc_req sites_nested h_nested) (Decode 0 [(0, Hashable 1)] [])) = Some ONotFound
+  /\ snd (step acc_req sites_nested (final acc_req sites_nested h_nested) (Decode 0 [(0, Hashable 2)] [])) = Some (OInst 2).
 Proof.
   split; [|vm_compute; split; reflexivity].
-  split; [|exists (Cls [0] [(0, 1)] [] []); split; [reflexivity | left; reflexivity]].
+  split; [|exists (Cls [0] [(0, 1)] [] [] false); split; [reflexivity | left; reflexivity]].
   left. split; [reflexivity|]. exists 0. split; [left; reflexivity|].
-  apply desc_child. exists (Cls [0] [(0, 1)] [] []). split; [reflexivity | left; reflexivity].
+  apply desc_child. exists (Cls [0] [(0, 1)] [] [] false). split; [reflexivity | left; reflexivity].
 Qed.
 Print Assumptions C12_class_level_self_excluded.
 
@@ -122,9 +178,9 @@ Print Assumptions C12_class_level_self_excluded.
    which contradicts the no-field clause; without the earlier decode the same call answers C1. *)
 Theorem C12_nofield_inherited_unpacker_refuted :
   nth_error (krun kf_sites (kf_pre ++ [Decode 1 [] [0; 1]])) 3 = Some (Some ONotFound)
-  /\ ~ nofield_spec acc_req (defs kf_pre) (Site [1] false true false false false false 0) [0; 1] ONotFound
-  /\ nofield_spec acc_req (defs kf_pre) (Site [1] false true false false false false 0) [0; 1] (OInst 1)
-  /\ nth_error (krun kf_sites [Define [] [] [] [0]; Define [0] [] [] [1]; Decode 1 [] [0; 1]]) 2 = Some (Some (OInst 1)).
+  /\ ~ nofield_spec acc_req (defs kf_pre) (Site [1] false true false false false false 0 0) [0; 1] ONotFound
+  /\ nofield_spec acc_req (defs kf_pre) (Site [1] false true false false false false 0 0) [0; 1] (OInst 1)
+  /\ nth_error (krun kf_sites [Define [] [] [] [0] false; Define [0] [] [] [1] false; Decode 1 [] [0; 1]]) 2 = Some (Some (OInst 1)).
 Proof. exact nofield_inherited_unpacker_refuted. Qed.
 Print Assumptions C12_nofield_inherited_unpacker_refuted.
 
@@ -132,41 +188,75 @@ Print Assumptions C12_nofield_inherited_unpacker_refuted.
    absent -> MissingDiscriminator (the inner error is not a KeyError, the outer dispatcher lets it through); inner key
    present -> the inner subclass; the stale/fresh state of either registry is irrelevant. *)
 Definition sites_2key : list site :=
-  [Site [0] true false true false true false 0; Site [1] true false true false true false 1].
-Definition h_2key : list op := [Define [] [] [] []; Define [0] [(0, 5)] [] []; Define [1] [(1, 7)] [] []].
+  [Site [0] true false true false true false 0 0; Site [1] true false true false true false 1 0].
+Definition h_2key : list op := [Define [] [] [] [] false; Define [0] [(0, 5)] [] [] false; Define [1] [(1, 7)] [] [] false].
 Theorem C12_nested_missing_key :
-  snd (step acc_req sites_2key (final acc_req sites_2key h_2key) (Decode 0 [(0, 5)] [])) = Some OMissing
-  /\ snd (step acc_req sites_2key (final acc_req sites_2key h_2key) (Decode 0 [(0, 5); (1, 7)] [])) = Some (OInst 2)
-  /\ snd (step acc_req sites_2key (final acc_req sites_2key h_2key) (Decode 0 [(0, 5); (1, 8)] [])) = Some ONotFound
-  /\ snd (step acc_req sites_2key (final acc_req sites_2key h_2key) (Decode 0 [(1, 7)] [])) = Some OMissing.
+  snd (step acc_req sites_2key (final acc_req sites_2key h_2key) (Decode 0 [(0, Hashable 5)] [])) = Some OMissing
+  /\ snd (step acc_req sites_2key (final acc_req sites_2key h_2key) (Decode 0 [(0, Hashable 5); (1, Hashable 7)] [])) = Some (OInst 2)
+  /\ snd (step acc_req sites_2key (final acc_req sites_2key h_2key) (Decode 0 [(0, Hashable 5); (1, Hashable 8)] [])) = Some ONotFound
+  /\ snd (step acc_req sites_2key (final acc_req sites_2key h_2key) (Decode 0 [(1, Hashable 7)] [])) = Some OMissing.
 Proof. vm_compute. repeat split. Qed.
 Print Assumptions C12_nested_missing_key.
 
 (* ---- non-vacuity: the hypotheses of C12_registry hold on a history with a stale registry, a class
    without own tag, a class defined after the first call, and the conclusion pins the late class *)
 Definition h_late : list op :=
-  [Define [] [] [] []; Define [0] [(0, 1)] [] []; Decode 0 [(0, 1)] []; Decode 0 [(0, 3)] [];
-   Define [1] [] [] []; Define [2] [(0, 3)] [] []].
+  [Define [] [] [] [] false; Define [0] [(0, 1)] [] [] false; Decode 0 [(0, Hashable 1)] []; Decode 0 [(0, Hashable 3)] [];
+   Define [1] [] [] [] false; Define [2] [(0, 3)] [] [] false].
 
 Example C12_registry_nonvacuous :
   site_ok s_demo (length (defs h_late)) = true
   /\ tag_unique (defs h_late) s_demo 3
-  /\ snd (step acc_req [s_demo] (final acc_req [s_demo] h_late) (Decode 0 [(0, 3)] [])) = Some (OInst 3)
+  /\ snd (step acc_req [s_demo] (final acc_req [s_demo] h_late) (Decode 0 [(0, Hashable 3)] [])) = Some (OInst 3)
   /\ carries (defs h_late) s_demo 3 3
   /\ nth_error (run acc_req [s_demo] h_late) 3 = Some (Some ONotFound).
 Proof.
   split; [reflexivity|]. split.
   - apply (proj1 (C12_tag_unique_decidable h_late s_demo 3 eq_refl)). reflexivity.
   - split; [reflexivity|]. split; [|reflexivity].
-    destruct (C12_registry acc_req [s_demo] h_late 0 s_demo [(0, 3)] 3 [] eq_refl eq_refl eq_refl eq_refl
+    destruct (C12_registry acc_req [s_demo] h_late 0 s_demo [(0, Hashable 3)] 3 [] eq_refl eq_refl eq_refl eq_refl
                 (proj1 (C12_tag_unique_decidable h_late s_demo 3 eq_refl) eq_refl)
                 (fun c _ => eq_refl)) as [o [E S]].
-    vm_compute in E. injection E as <-. apply S. reflexivity.
+    { intros c _. (* acceptance never raises KeyError here: no class has the hook *)
+      assert (K: forall k present, c_kerr k = false -> acc_req k present <> VKeyError).
+      { intros k pr H. unfold acc_req. rewrite H. cbn. destruct (forallb _ _); discriminate. }
+      apply K. destruct c as [|[|[|[|c]]]]; try reflexivity. destruct c; reflexivity. }
+    vm_compute in E. injection E as <-. apply (proj1 (proj1 S 3) eq_refl).
 Qed.
 
+(* non-vacuity of C12_multi_field: a holder with two discriminated fields over two hierarchies with different tagger
+   functions (ids 0 and 1) and different keys; the same tag value means different classes at the two sites *)
+Definition sites_mf : list site :=
+  [Site [0] true false true true false false 0 0; Site [1] true false true true false false 1 1].
+Definition h_mf : list op :=
+  [Define [] [] [] [] false; Define [] [] [] [] false;
+   Define [0] [] [(0, [5]); (1, [6])] [] false; Define [1] [] [(0, [6]); (1, [5])] [] false].
+Example C12_multi_field_nonvacuous :
+  snd (step acc_req sites_mf (final acc_req sites_mf h_mf) (DecodeSeq [(0, [(0, Hashable 5)], []); (1, [(1, Hashable 5)], [])])) = Some (OMany [2; 3])
+  /\ snd (step acc_req sites_mf (final acc_req sites_mf h_mf) (DecodeSeq [(0, [(0, Hashable 5)], []); (1, [(1, Hashable 6)], [])])) = Some ONotFound
+  /\ snd (step acc_req sites_mf (final acc_req sites_mf h_mf) (DecodeSeq [(0, [(0, Hashable 6)], []); (1, [], [])])) = Some ONotFound
+  /\ snd (step acc_req sites_mf (final acc_req sites_mf h_mf) (DecodeSeq [(0, [(0, Hashable 5)], []); (1, [], [])])) = Some OMissing.
+Proof. vm_compute. repeat split. Qed.
+
+(* mixed nesting, in the model: a no-field class-level dispatcher below a field one and a field one below a no-field
+   one (class 1 dispatches its subclasses by acceptance, class 4 by key 0) *)
+Definition sites_mix : list site :=
+  [Site [0] true false true false true false 0 0; Site [1] true false false false true false 0 0;
+   Site [4] true false true false true false 0 0].
+Definition h_mix : list op :=
+  [Define [] [] [] [] false; Define [0] [(0, 1)] [] [] false; Define [1] [] [] [7] false; Define [1] [] [] [8] false;
+   Define [1] [] [] [9] false; Define [4] [(0, 2)] [] [] false].
+Example C12_mixed_nesting :
+  snd (step acc_req sites_mix (final acc_req sites_mix h_mix) (Decode 0 [(0, Hashable 1)] [8])) = Some (OInst 3)
+  /\ snd (step acc_req sites_mix (final acc_req sites_mix h_mix) (Decode 0 [(0, Hashable 1)] [])) = Some ONotFound
+  /\ snd (step acc_req sites_mix (final acc_req sites_mix h_mix) (Decode 1 [(0, Hashable 2)] [9])) = Some (OInst 5)
+  /\ snd (step acc_req sites_mix (final acc_req sites_mix h_mix) (Decode 1 [] [9])) = Some (OInst 5)
+  /\ snd (step acc_req sites_mix (final acc_req sites_mix h_mix) (Decode 0 [(0, Hashable 2)] [])) = Some (ORej 5).
+Proof. vm_compute. repeat split. Qed.
+
 (* no-field mode: subclass wins over the base although the base accepts too; base only as a last resort *)
-Definition s_nf : site := Site [0] true true false false false false 0.
-Definition h_nf : list op := [Define [] [] [] [0]; Define [0] [] [] [1]; Define [0] [] [] [2]].
+Definition s_nf : site := Site [0] true true false false false false 0 0.
+Definition h_nf : list op := [Define [] [] [] [0] false; Define [0] [] [] [1] false; Define [0] [] [] [2] false].
 Example C12_nofield_nonvacuous :
   snd (step acc_req [s_nf] (final acc_req [s_nf] h_nf) (Decode 0 [] [0; 2])) = Some (OInst 2)
   /\ snd (step acc_req [s_nf] (final acc_req [s_nf] h_nf) (Decode 0 [] [0])) = Some (OInst 0)
